@@ -451,7 +451,7 @@ func runWorker(ck *Check, tier string, seed uint64, flavour string, cases []int,
 	cmd.Stdout = lf
 	cmd.Stderr = lf
 	cmd.Env = append(os.Environ(),
-		"GORACE=halt_on_error=0 log_path="+filepath.Join(workdir, tag+".race"),
+		"GORACE=halt_on_error=0 exitcode=0 log_path="+filepath.Join(workdir, tag+".race"),
 		"ASAN_OPTIONS=halt_on_error=1:abort_on_error=1:detect_leaks=0",
 		"GOTRACEBACK=all")
 	var diag diagT
